@@ -159,6 +159,11 @@ func sessionPools(r *Rand, npools int) ([][]sessInput, int) {
 	bogus := base
 	bogus.FontID = "bogus_default"
 	pools = append(pools, []sessInput{{badFont, base}, {badFont2, base}, {fmtSrc(""), bogus}, {badFont, unoptOf(base)}})
+	// several things wrong at once: the error reported is the same one every time
+	dupTexts := "text A {\n    \"1\"\n}\ntext B {\n    \"2\"\n}\ntext C {\n    \"3\"\n}\ntext B {\n    \"4\"\n}\ntext A {\n    \"5\"\n}\ntext C {\n    \"6\"\n}\n"
+	dupMoves := "movement A {\n    walk_up\n}\nmovement B {\n    walk_up\n}\nmovement B {\n    walk_down\n}\nmovement A {\n    walk_down\n}\n"
+	dupConst := "const A = 1\nconst B = 2\nconst B = 3\nconst A = 4\nscript S {\n    switch (var(V)) {\n        case 1: x\n        case 1: y\n        default: z\n        default: w\n    }\n}\n"
+	pools = append(pools, []sessInput{{dupTexts, base}, {dupMoves, base}, {dupConst, base}, {dupTexts, unoptOf(base)}})
 	// line markers with different input paths in one process
 	lmB, lmC := lm, lm
 	lmB.InputPath, lmC.InputPath = "maps/other dir/b.pory", `C:\data\c.pory`
